@@ -144,6 +144,9 @@ func invokeDirect(api API, c *Call, args callArgs) (o Outcome) {
 		}
 		if c.Corrupt > 0 {
 			p = api.CorruptPatch(p, c.Corrupt)
+			o.Extra = api.Describe(p, false) // no accessor calls on a hand-assembled Patch: Apply is what is under test
+			o.patch = p
+			return o
 		}
 		o.Extra = api.Describe(p, true)
 		o.patch = p
